@@ -1,6 +1,6 @@
 (** [convert_tree_faithful_partial], part 2: instance types, component types, entities, the package. *)
 From Coq Require Import Lia.
-From WacV Require Import Str Types CheckerValue CheckerProofs Convert ConvertSpec ConvertProofs ConvertFrame ConvertTree.
+From WacV Require Import Str Types CheckerEq CheckerValue CheckerProofs Convert ConvertSpec ConvertProofs ConvertFrame ConvertTree.
 Set Warnings "-unused-intro-pattern".
 
 (** * Opening and closing a slot *)
@@ -394,3 +394,17 @@ Section Entity.
     - eapply Forall2_imp; [|exact D2]. intros a b [Hn Hd]. split; [exact Hn|]. now apply Hd.
   Qed.
 End Entity.
+
+(** * The boolean form evaluated on implementation observations implies the declarative one *)
+Lemma lists_exactly_b_sound g t p : lists_exactly_b g t p = true -> lists_exactly g t p.
+Proof.
+  unfold lists_exactly_b, lists_exactly.
+  destruct (get_world t (pk_ty p)) as [w|]; [|discriminate]. destruct (get_if t (pk_instance p)) as [i|]; [|discriminate].
+  intro H. apply andb_prop in H as [H H3]. apply andb_prop in H as [H1 H2].
+  exists w, i. repeat split; try (apply items_agree_b_sound; assumption).
+  unfold kitems_eqb in H3. apply (listeqb_eq _) in H3; [exact H3|].
+  intros [n1 k1] [n2 k2]. cbn [fst snd]. split.
+  - intro E. apply andb_prop in E as [E1 E2]. apply seqb_eq in E1. apply kindeqb_eq in E2. congruence.
+  - intro E. injection E as -> ->. rewrite seqb_refl. cbn. now apply kindeqb_eq.
+Qed.
+
